@@ -51,21 +51,25 @@ static inline const vslice* c8_item(const vsvec* items, size_t i)
 }
 
 /* ---- result strings that are only written (never read back) by the function under contract: the content is ONE ghost
- * byte -- "byte g_ok of the result is g_oval" (meaningful when g_ok < size) -- recorded by whichever operation writes
- * index g_ok.  Allocation succeeds (sizes stay below VSTR_MAXCAP) is assumed. ------------------------------------------- */
+ * byte.  The ghost output position is the pair (g_obase, g_rk) = absolute index g_obase + g_rk; an append / push_back that
+ * STARTS at offset g_obase and covers relative index g_rk records the byte it writes there in g_oval.  Contracts are phrased
+ * "if piece X starts at g_obase then g_oval == ..." for every (g_obase, g_rk) (both are inputs, i.e. universally quantified);
+ * if no write starts at g_obase, g_oval keeps its arbitrary initial value and such a clause fails (never unsound).
+ * Allocation succeeds (sizes stay below VSTR_MAXCAP) is assumed. --------------------------------------------------------- */
 typedef struct { size_t size; } vout;
 extern char g_oval;
+extern size_t g_obase, g_rk;
 static inline void c8_append(vout* s, const char* p, size_t n)
 {
   __CPROVER_assume(n <= VSTR_MAXCAP - s->size);     /* allocation succeeds */
   __CPROVER_assert(n == 0 || __CPROVER_r_ok(p, n), "append(p, n): source range is readable");
-  if (g_ok >= s->size && g_ok - s->size < n) g_oval = p[g_ok - s->size];
+  if (s->size == g_obase && g_rk < n) g_oval = p[g_rk];
   s->size += n;
 }
 static inline void c8_push_back(vout* s, char c)
 {
   __CPROVER_assume(s->size < VSTR_MAXCAP);          /* allocation succeeds */
-  if (g_ok == s->size) g_oval = c;
+  if (s->size == g_obase && g_rk == 0) g_oval = c;
   s->size++;
 }
 static inline void c8_reserve(vout* s, size_t n) { (void)s; (void)n; }   /* capacity hint: no observable effect */
@@ -75,7 +79,7 @@ static inline void c8_reserve(vout* s, size_t n) { (void)s; (void)n; }   /* capa
 size_t c8_find_ch(const vstr* s, char ch, size_t pos)
 __CPROVER_ensures(__CPROVER_return_value == C8_NPOS || (__CPROVER_return_value >= pos && __CPROVER_return_value < s->size))
 __CPROVER_ensures(__CPROVER_return_value != C8_NPOS ==> s->data[__CPROVER_return_value] == ch)
-__CPROVER_ensures((g_sk >= pos && g_sk < s->size && (__CPROVER_return_value == C8_NPOS || g_sk < __CPROVER_return_value)) ==> s->data[g_sk] != ch)
+__CPROVER_ensures((pos <= s->size && g_rk < (__CPROVER_return_value == C8_NPOS ? s->size : __CPROVER_return_value) - pos) ==> s->data[pos + g_rk] != ch)   /* g_rk is relative to pos */
 __CPROVER_assigns();
 
 /* s.find(p, pos, n) with n > 0 or n == 0: lowest index r >= pos with r + n <= size and s[r, r+n) == p[0, n), npos if none.
